@@ -45,6 +45,7 @@ class LinkSkillTarget(DiscreteTarget):
             damage_logic=self.damage_logic,
             preempted_jobs=list(self.preempted_jobs),
             link_skillset=self._link_skillset,
+            armor=self.armor,
         )
         target.set_state(self.state)
 
